@@ -131,18 +131,23 @@ pub fn core_libfunc_ap_change<InfoProvider: InvocationApChangeInfoProvider>(
                     // value.
                     let extra_below = if libfunc.to_range.lower.is_zero() { 0 } else { 1 };
                     let extra_above = if libfunc.to_range.upper.is_zero() { 0 } else { 1 };
+                    // Asserting that a value is below `2**128` is a plain range check of the value,
+                    // without the additional calculation.
+                    let rc_bound = BigInt::from(u128::MAX) + 1;
+                    let lt_lower = if libfunc.to_range.lower == rc_bound { 0 } else { 1 };
+                    let lt_upper = if libfunc.to_range.upper == rc_bound { 0 } else { 1 };
                     match libfunc.cast_type() {
                         CastType { overflow_above: false, overflow_below: false } => {
                             vec![ApChange::Known(0), ApChange::Known(0)]
                         }
                         CastType { overflow_above: true, overflow_below: false } => {
-                            vec![ApChange::Known(2), ApChange::Known(1 + extra_above)]
+                            vec![ApChange::Known(1 + lt_upper), ApChange::Known(1 + extra_above)]
                         }
                         CastType { overflow_above: false, overflow_below: true } => {
-                            vec![ApChange::Known(1 + extra_below), ApChange::Known(2)]
+                            vec![ApChange::Known(1 + extra_below), ApChange::Known(1 + lt_lower)]
                         }
                         CastType { overflow_above: true, overflow_below: true } => {
-                            vec![ApChange::Known(2 + extra_below), ApChange::Known(3)]
+                            vec![ApChange::Known(1 + extra_below + lt_upper), ApChange::Known(3)]
                         }
                     }
                 }
